@@ -441,6 +441,76 @@ fn main() {
         ));
     }
 
+    {
+        let st = setup.clone();
+        programs.push((
+            "verify",
+            "three threads verify (512: two messages under one shared public key object, 1024: one), valid and invalid pairs",
+            Arc::new(move || {
+                let pk1 = Arc::new(falcon512::PublicKey::from_bytes(&st.pk1).expect("own key decodes"));
+                let pk2 = Arc::new(falcon1024::PublicKey::from_bytes(&st.pk2).expect("own key decodes"));
+                let (sa, sb, sc) = (st.sigs[0].clone(), st.sigs[1].clone(), st.sigs[2].clone());
+                let (sa2, sb2) = (sa.clone(), sb.clone());
+                let pk1b = pk1.clone();
+                let t1 = shuttle::thread::spawn(move || {
+                    let sig = falcon512::Signature::from_bytes(&sa).unwrap();
+                    let other = falcon512::Signature::from_bytes(&sb2).unwrap();
+                    (falcon512::verify(b"message A", &sig, &pk1), falcon512::verify(b"message A", &other, &pk1))
+                });
+                let t2 = shuttle::thread::spawn(move || {
+                    let sig = falcon512::Signature::from_bytes(&sb).unwrap();
+                    let other = falcon512::Signature::from_bytes(&sa2).unwrap();
+                    (falcon512::verify(b"a longer message B ............", &sig, &pk1b), falcon512::verify(b"a longer message B ............", &other, &pk1b))
+                });
+                let t3 = shuttle::thread::spawn(move || {
+                    let sig = falcon1024::Signature::from_bytes(&sc).unwrap();
+                    let mut bad = sc.clone();
+                    bad[50] ^= 0x10;
+                    let badsig = falcon1024::Signature::from_bytes(&bad).unwrap();
+                    (falcon1024::verify(b"message A", &sig, &pk2), falcon1024::verify(b"message A", &badsig, &pk2))
+                });
+                let (a, b, c) = (t1.join().unwrap(), t2.join().unwrap(), t3.join().unwrap());
+                assert!(a.0 && b.0 && c.0, "a valid signature is rejected when verifications run concurrently");
+                assert!(!a.1 && !b.1 && !c.1, "an invalid (message, signature) pair is accepted when verifications run concurrently");
+            }),
+        ));
+    }
+    {
+        let st = setup.clone();
+        programs.push((
+            "decode",
+            "three threads decode secret keys (the same Falcon-512 bytes twice, Falcon-1024 once), re-encode and sign",
+            Arc::new(move || {
+                let (b1, b1b, b2) = (st.sk1.clone(), st.sk1.clone(), st.sk2.clone());
+                let (p1, p2) = (st.pk1.clone(), st.pk2.clone());
+                let t1 = shuttle::thread::spawn(move || {
+                    let k = falcon512::SecretKey::from_bytes(&b1).expect("own key decodes");
+                    (k.to_bytes(), sign512(1, b"message A", &k))
+                });
+                let t2 = shuttle::thread::spawn(move || {
+                    let k = falcon512::SecretKey::from_bytes(&b1b).expect("own key decodes");
+                    let s = sign512(2, b"a longer message B ............", &k);
+                    let pk = falcon512::PublicKey::from_bytes(&p1).unwrap();
+                    let ok = falcon512::verify(b"a longer message B ............", &falcon512::Signature::from_bytes(&s).unwrap(), &pk);
+                    (k.to_bytes(), s, ok)
+                });
+                let t3 = shuttle::thread::spawn(move || {
+                    let k = falcon1024::SecretKey::from_bytes(&b2).expect("own key decodes");
+                    let s = sign1024(3, b"message A", &k);
+                    let pk = falcon1024::PublicKey::from_bytes(&p2).unwrap();
+                    let ok = falcon1024::verify(b"message A", &falcon1024::Signature::from_bytes(&s).unwrap(), &pk);
+                    (k.to_bytes(), s, ok)
+                });
+                let (a, b, c) = (t1.join().unwrap(), t2.join().unwrap(), t3.join().unwrap());
+                assert!(a.0 == st.sk1 && b.0 == st.sk1 && c.0 == st.sk2, "a secret key decoded while other threads decode re-encodes differently");
+                assert!(b.2 && c.2, "a signature made with a key decoded concurrently does not verify");
+                if deterministic {
+                    assert!(a.1 == st.sigs[0] && b.1 == st.sigs[1] && c.1 == st.sigs[2], "a key decoded while other threads decode signs differently from the same key decoded alone");
+                }
+            }),
+        ));
+    }
+
     for (key, name, f) in programs {
         if which != "all" && which != key {
             continue;
